@@ -10,6 +10,7 @@ import (
 	"net/url"
 	"sort"
 	"strings"
+
 	"sync"
 	"time"
 
@@ -17,6 +18,7 @@ import (
 	"verif/harness/opdrv"
 
 	"github.com/zitadel/oidc/v3/pkg/client"
+	"github.com/zitadel/oidc/v3/pkg/client/rp"
 	"github.com/zitadel/oidc/v3/pkg/oidc"
 	"github.com/zitadel/oidc/v3/pkg/op"
 )
@@ -359,12 +361,33 @@ func issuerCase(c M) M {
 
 func discoverCase(c M) M {
 	asked := "https://op.example.test"
+	custom := map[string]string{"default": "", "customSameHost": asked + "/tenants/a/.well-known/openid-configuration",
+		"customOtherHost": "https://other-op.example.test/.well-known/openid-configuration", "": ""}[S(c, "url")]
+	urlIssuer := asked
+	if custom != "" {
+		urlIssuer = strings.TrimSuffix(custom, "/.well-known/openid-configuration")
+	}
 	docIss := map[string]string{"equal": asked, "different": "https://evil.example.test", "trailingSlash": asked + "/", "empty": "", "otherScheme": "http://op.example.test",
-		"subpath": asked + "/tenant"}[S(c, "doc")]
-	body, _ := json.Marshal(M{"issuer": docIss, "authorization_endpoint": asked + "/authorize", "token_endpoint": asked + "/oauth/token", "jwks_uri": asked + "/keys"})
+		"subpath": asked + "/tenant", "urlIssuer": urlIssuer}[S(c, "doc")]
+	if S(c, "doc") == "urlIssuer" && custom == "" {
+		docIss = asked + "/.well-known" // default location: there is no other issuer the URL could belong to; a different issuer all the same
+	}
+	body, _ := json.Marshal(M{"issuer": docIss, "authorization_endpoint": docIss + "/authorize", "token_endpoint": docIss + "/oauth/token", "jwks_uri": docIss + "/keys"})
 	o := M{"accepted": false}
 	p := CatchPanic(func() {
-		_, err := client.Discover(context.Background(), asked, &http.Client{Transport: jwksTransport{body}})
+		hc := &http.Client{Transport: jwksTransport{body}}
+		var err error
+		if S(c, "via") == "rp.NewRelyingPartyOIDC" {
+			opts := []rp.Option{rp.WithHTTPClient(hc)}
+			if custom != "" {
+				opts = append(opts, rp.WithCustomDiscoveryUrl(custom))
+			}
+			_, err = rp.NewRelyingPartyOIDC(context.Background(), asked, "client", "secret", "https://rp.example.test/cb", []string{"openid"}, opts...)
+		} else if custom != "" {
+			_, err = client.Discover(context.Background(), asked, hc, custom)
+		} else {
+			_, err = client.Discover(context.Background(), asked, hc)
+		}
 		o["accepted"] = err == nil
 	})
 	if p != "" {
